@@ -102,6 +102,16 @@ CLAIMED = {
                 "and is not counted. Known finding: --config bypasses __post_init__ normalisation for four options.",
         "note": "Mostly bounded; the proved part is one function and the override order.",
     },
+    "C03": {
+        "engines": ["A", "B", "Bd"],
+        "technique": "contract-based deductive verification: VCs from the ASTs of read_docstring (abstract reader stream), meta_preprocessor (prefix fold) and the marker-rewriting "
+                     "blocks of FortranReader.__next__; regex-language equivalence of the doc-marker patterns with the comment automaton (z3)",
+        "text": "Proved: read_docstring takes exactly the maximal run of marker lines, in order, marker removed, and hands the next line back; meta_preprocessor turns a prefix of "
+                "metadata lines into the table (keys lower-cased, values stripped) and returns the remaining lines untouched; pre/alt markers are rewritten to the plain marker with "
+                "the text verbatim and inline use is rejected; a line is a doc line iff its first '!' in code state is followed by the marker. Attachment to the right entity across "
+                "the four styles and word preservation through the admonition pre-processor and python-markdown are covered only by bounded stand-ins (20 programs, 390 bodies).",
+        "note": "Partial: collection mechanisms proved; attachment and rendering bounded.",
+    },
 }
 _NB = "no obligations built yet for this property in the current commit (planned in DESIGN.md section 6; technique not switched)"
-NOT_APPLICABLE = {p: _NB for p in ["C03", "C09", "C11", "C12", "C13", "C16", "C17", "C18", "C19", "C20"]}
+NOT_APPLICABLE = {p: _NB for p in ["C09", "C11", "C12", "C13", "C16", "C17", "C18", "C19", "C20"]}
